@@ -60,6 +60,20 @@ func genNotBound(env *lat.Env) func(lat.Ty) bool {
 }
 
 // incomplete: x is an instance of u, has no undef-valued entry, and u rejects the detailed type of x.
+// foldedHash: a hash whose detailed type is a Hash type built by folding commonType over its entries (a key that is not a
+// string, or the empty string) rather than a Struct
+func foldedHash(x lat.Val) bool {
+	if x.K != "h" {
+		return false
+	}
+	for _, e := range x.Es {
+		if e.K.K != "s" || e.K.S == "" {
+			return true
+		}
+	}
+	return false
+}
+
 func incomplete(env *lat.Env) func(lat.Ty, lat.Val) bool {
 	return func(u lat.Ty, x lat.Val) bool {
 		if hasUndefEntry(x) || lat.ContainsK(u, "iter") {
@@ -233,7 +247,14 @@ func exec(c px.Context, op string, args []sx.Sexp) core.Result {
 			return r.Result("FAIL "+class+" T accepts the detailed type of V but V is not an instance of T", true)
 		}
 		if inst && !acc && !hasUndefEntry(v) && !lat.ContainsK(t, "iter") {
-			return r.Result("FAIL accepts-incomplete-"+lat.CulpritPair(t, v, incomplete(r.Env))+" V is an instance of T but T rejects the detailed type of V", true)
+			ct, cv := lat.CulpritPairOf(t, v, incomplete(r.Env))
+			class := lat.Head(ct)
+			if (class == "rdata" || class == "data") && foldedHash(cv) {
+				// the cause is the value, not the alias: the detailed type of a hash with a non-string or empty-string key is a
+				// commonType fold (finding C04-incomplete-hash), which the Hash member of Data / RichData rejects like any Hash type
+				class = "hash"
+			}
+			return r.Result("FAIL accepts-incomplete-"+class+" V is an instance of T but T rejects the detailed type of V", true)
 		}
 		return r.Result("ok", nt)
 	}
